@@ -254,5 +254,6 @@ func init() {
 		})
 		sfRegister(c, 1)     // the raw-string prefix filters (leg Sf, see strfilter.go)
 		wrLeg(c, 800, 40000) // the writer model behind QuickCodes / TrackCount (leg Wr, see writer.go)
+		ccLeg(c, 800, 40000) // the bool-only program against the main program and the specification at interpreter level (leg Cc, see compile.go; Props/C02 part D)
 	})
 }
